@@ -19,6 +19,7 @@ pub fn defs() -> Vec<ScenDef> {
         d("park", park, false, None),
         d("tmr", tmr, false, None),
         d("tmrmix", tmrmix, false, None),
+        d("tmrrace", tmrrace, false, None),
         d("can", can, true, None),
         d("pan", pan, false, Some(4)),
         d("scope", scope, true, None),
@@ -68,11 +69,13 @@ fn co_body(i: usize, recs: &Arc<Vec<CoRec>>, r: &mut Rng, kind: u64) -> usize {
     let steps = r.below(5);
     for st in 0..steps {
         seg_leave(rec);
-        let op = r.below(4);
+        let op = r.below(5);
         rec.phase.store(kind as usize * 1000 + st as usize * 10 + op as usize + 1, SeqCst);
         match op {
             0 | 1 => coroutine::yield_now(),
             2 => coroutine::sleep(Duration::from_micros(r.below(300))),
+            // woken by the timer thread, possibly while the worker is still inside subscribe
+            4 => coroutine::park_timeout(Duration::from_micros(r.below(300))),
             _ => {
                 // park/unpark pair with a helper thread-free self wake: unpark first, then park
                 let me = coroutine::current();
@@ -147,7 +150,7 @@ fn spawn(x: &mut Exec) -> Res {
                 let h = unsafe {
                     match how {
                         0 => coroutine::Builder::new().name(format!("c{}", i)).spawn(body).unwrap(),
-                        1 => coroutine::Builder::new().stack_size(0x2000 + (i % 3) * 0x1000).spawn(body).unwrap(),
+                        1 => coroutine::Builder::new().stack_size(0x6000 + (i % 3) * 0x1000).spawn(body).unwrap(),
                         2 => coroutine::Builder::new().id(i % workers).spawn(body).unwrap(),
                         3 if !nested && sp == 0 => coroutine::Builder::new().spawn_local(body).unwrap(),
                         _ => coroutine::spawn(body),
@@ -197,7 +200,7 @@ fn spawn(x: &mut Exec) -> Res {
     }
     x.desc = format!("spawn storm n={} spawners=thread+coroutine workers={}", n, workers);
     let unfinished = |recs: &Arc<Vec<CoRec>>| -> String {
-        recs.iter().enumerate().filter(|(_, r)| !r.finished.load(SeqCst)).map(|(i, r)| format!("co{}:runs={},phase(kind*1000+step*10+op+1; op 0/1 yield 2 sleep 3 unpark+park)={}", i, r.runs.load(SeqCst), r.phase.load(SeqCst))).collect::<Vec<_>>().join(" ")
+        recs.iter().enumerate().filter(|(_, r)| !r.finished.load(SeqCst)).map(|(i, r)| format!("co{}:runs={},phase(kind*1000+step*10+op+1; op 0/1 yield 2 sleep 3 unpark+park 4 park_timeout)={}", i, r.runs.load(SeqCst), r.phase.load(SeqCst))).collect::<Vec<_>>().join(" ")
     };
     if let Err(e) = x.wait_all() {
         x.desc += &format!(" | unfinished: {}", unfinished(&recs));
@@ -1417,6 +1420,68 @@ fn scope(x: &mut Exec) -> Res {
             (3, Ok(_)) => return viol("a child's panic was not propagated to the scope owner"),
             _ => {}
         }
+    }
+    Ok(())
+}
+
+/// stress (run with hooks uninstalled): a short timer is armed right after the timer thread has been
+/// woken by the removal of another timer, round after round with random sub-100us offsets. The
+/// add_timer / timer-thread wake-up protocol has windows of a few instructions that no stall plan
+/// can sit in; a lost wake-up leaves the short sleep pending with everything asleep, which the
+/// quiescence oracle reports (no deadline involved).
+fn tmrrace(x: &mut Exec) -> Res {
+    let rounds = if x.thorough { 60_000 } else { 12_000 };
+    // the helper blocks in a std channel while idle, so that a stranded sleeper leaves the process quiescent
+    let (tx, rx) = std::sync::mpsc::channel::<Arc<Blocker>>();
+    let errs = Arc::new(std::sync::Mutex::new(Vec::<String>::new()));
+    {
+        let mut r = x.rng.fork();
+        x.spawn("unparker", false, move |_a| {
+            while let Ok(b) = rx.recv() {
+                let t0 = Instant::now();
+                let d = 10 + r.below(60);
+                while t0.elapsed() < Duration::from_micros(d) {
+                    std::hint::spin_loop();
+                }
+                b.unpark();
+            }
+        });
+    }
+    {
+        let errs = errs.clone();
+        let mut r = x.rng.fork();
+        x.spawn("sleeper", true, move |a| {
+            for i in 0..rounds {
+                // (1) a long timed wait that ends by an unpark: its timer is removed, which wakes the
+                // timer thread (and consumes its wake-up registration)
+                let b = Blocker::current();
+                let _ = tx.send(b.clone());
+                if b.park(Some(Duration::from_secs(600))).is_err() {
+                    errs.lock().unwrap().push(format!("round {}: park(600s) + unpark returned an error", i));
+                    break;
+                }
+                // (2) random offset, (3) a short timer that becomes the new earliest one
+                let t0 = Instant::now();
+                let d = r.below(150);
+                while t0.elapsed() < Duration::from_micros(d) {
+                    std::hint::spin_loop();
+                }
+                let t1 = Instant::now();
+                a.call("sleep(300us)", i as u64);
+                coroutine::sleep(Duration::from_micros(300));
+                a.ret("sleep(300us)", i as u64, t1.elapsed().as_micros() as u64);
+                if t1.elapsed() < Duration::from_micros(300) {
+                    errs.lock().unwrap().push(format!("round {}: sleep(300us) returned after {:?}", i, t1.elapsed()));
+                    break;
+                }
+            }
+            drop(tx);
+        });
+    }
+    x.desc = format!("timer race: {} rounds of [park(600s) ended by unpark after 10-70us] [0-150us] [sleep(300us)]", rounds);
+    x.wait_all()?;
+    if let Some(e) = errs.lock().unwrap().first() {
+        return viol(format!("timer race: {}", e));
     }
     Ok(())
 }
